@@ -283,4 +283,22 @@ Proof.
   rewrite Pi'_Pi by lia. unfold Mop, WG. f_equal. apply functional_extensionality; intros b.
   unfold full. replace (S m - 1) with m by lia. destruct (ones (S m) b); auto.
 Qed.
+(* MCU (the approximate gate): the same four sweeps without the gate from control 0 to the real target.  The target then receives
+   E T (2^(T-1) [all controls 1] - [control 0]) : the ideal gate followed by the inverse of the deepest root when control 0 is set. *)
+Definition A0less (m : nat) : list lg := map (fun c => LG c m (wt c)) (seq 1 (m - 1)).
+Lemma A0less_sem m psi : lrun (A0less m) psi = WG m (wsum wt (seq 1 (m - 1))) psi.
+Proof. unfold A0less. apply group_sem. intro H. apply in_seq in H. lia. Qed.
+Theorem grouped_mcu_sem psi : 1 <= T ->
+  lrun (A0less T ++ Sl (T - 1) ++ B T ++ Sl' (T - 1)) psi
+  = WG T (fun b => (bz (ones T b) * 2 ^ Z.of_nat (T - 1) - bz (get b 0))%Z) psi.
+Proof.
+  intros HT. rewrite !lrun_app, Sl_sem, Sl'_sem by lia. rewrite A0less_sem, B_sem.
+  rewrite push_Pi by lia. rewrite WG_WG.
+  - rewrite Pi'_Pi by lia. apply WG_ext. intros b. pose proof (weight_identity (T - 1) b) as W.
+    replace (S (T - 1)) with T in W by lia.
+    assert (Es : seq 0 T = 0 :: seq 1 (T - 1)) by (destruct T as [|m0]; [lia|]; cbn [seq]; replace (S m0 - 1) with m0 by lia; reflexivity).
+    rewrite Es in W. cbn [wsum] in W. unfold wbit at 1 in W. cbn [wt] in W.
+    unfold bz in *. destruct (get b 0), (ones T b); lia.
+  - apply wsum_indep. intro H. apply in_seq in H. lia.
+Qed.
 End Core.
